@@ -13,7 +13,7 @@ ASSUMPTIONS = C10.ASSUMPTIONS + ['a crash is modelled as a prefix of the medium 
 EXHAUSTIVE = {'quick': False, 'thorough': False}
 TECHNIQUE = 'Coq proof (validation = checksum matches data on the medium; whole-write crash points give old or new image; no non-IO_ERROR result with a short transfer in the log, for any fault script) + correspondence with crash/fault enumeration'
 LEVEL_TEXT = ('Properties_C11.v: a successful validation implies checksum-on-medium = algorithm(data-on-medium); a store cut before/after its data write leaves exactly the previous/new data image '
-              'and returns IO_ERROR; for ANY medium and fault scripts store/validate/fetch return a non-IO_ERROR code only if every medium call in their log transferred fully.')
+              'and returns IO_ERROR; a data or checksum write TORN after k octets returns IO_ERROR and leaves exactly the old image overlaid with the k octets written (all cut points of a store, which issues two write calls); for ANY medium and fault scripts store/validate/fetch/reset return a non-IO_ERROR code only if every medium call in their log transferred fully.')
 LEVEL_NOTE = 'Trusted: Coq kernel; hand model of persistent-storage.c (correspondence-tested under crash and fault enumeration); crash = write-call prefix with octet tearing. Physical media not modelled. No axioms.'
 
 def gen(rng, tier):
